@@ -5,6 +5,7 @@ from __future__ import annotations
 import contextlib
 import hashlib
 import io
+import json
 import math
 import os
 import random
@@ -142,13 +143,20 @@ c_Slots == {tla(set(SLOTS))}
 c_Vary == {tla({"soil", "bore", "sim"})}
 ====
 """
-    k = 4 if t == "quick" else 5
-    cfg = ("INIT InitPreset\nNEXT Next\nCHECK_DEADLOCK FALSE\n" + f"CONSTANTS\n Slots <- c_Slots\n Vary <- c_Vary\n MaxCalls = {k}\n MaxFinds = 2\n"
-           + "INVARIANT ResultDependsOnPhysOnly\nINVARIANT Emit\n")
-    res = run_tlc("MC_Manager", cfg, extra_modules={"MC_Manager.tla": mod}, workers=1, timeout=1200)
-    require_tlc_ok(res, "Manager exhaustive")
-    chk.add_tlc(res)
-    hists = [dict(h, preset=True) for h in res.prints]
+    # quick: every continuation of <= 4 calls with soil / bore / sim varied; thorough: additionally <= 5 calls with soil / bore varied
+    runs = [(4, mod)] if t == "quick" else [(4, mod), (5, mod.replace(tla({"soil", "bore", "sim"}), tla({"soil", "bore"})))]
+    hists, seen_h = [], set()
+    for k, m_ in runs:
+        cfg = ("INIT InitPreset\nNEXT Next\nCHECK_DEADLOCK FALSE\n" + f"CONSTANTS\n Slots <- c_Slots\n Vary <- c_Vary\n MaxCalls = {k}\n MaxFinds = 2\n"
+               + "INVARIANT ResultDependsOnPhysOnly\nINVARIANT Emit\n")
+        res = run_tlc("MC_Manager", cfg, extra_modules={"MC_Manager.tla": m_}, workers=1, timeout=1200)
+        require_tlc_ok(res, "Manager exhaustive")
+        chk.add_tlc(res)
+        for h in res.prints:
+            key = json.dumps(h["hist"])
+            if key not in seen_h:
+                seen_h.add(key)
+                hists.append(dict(h, preset=True))
     if len(hists) < 100:
         raise MachineryError(f"Manager exhaustive: only {len(hists)} histories")
     return hists
@@ -166,7 +174,7 @@ def run() -> int:
     maxlen = 3 if t == "quick" else 4
     mod = f"""---- MODULE MC_GheObject ----
 EXTENDS GheObject
-c_Heights == {{"h1", "h2", "h3"}}
+c_Heights == {{"h1", "h2", "h3", "h4"}}
 c_Fixed == {tla(FIXED_OBJ)}
 c_Variants == {{"plain", "radius", "family"}}
 ====
@@ -185,14 +193,23 @@ c_Variants == {{"plain", "radius", "family"}}
     ohist = res.prints
     cap = 220 if t == "quick" else 2500
     if len(ohist) > cap:
-        ohist = rnd.sample(ohist, cap)
+        # always part of the sample: a lookup OUTSIDE the tabulated heights (h4) on an object with a multi-height family, followed by
+        # in-range work (a sizing, or a simulation at another height) - what the out-of-range lookup leaves behind must not matter
+        def must(h):
+            ops = [c[0] for c in h["hist"]]
+            i4 = next((i for i, c in enumerate(h["hist"]) if c[0] == "set_h" and c[1] == "h4"), None)
+            return h["variant"] == "family" and i4 is not None and any(o in ("sim_hybrid", "sim_hourly") for o in ops[i4 + 1:-1]) and ops[-1] in ("size_hybrid", "sim_hybrid") \
+                and (ops[-1] == "size_hybrid" or any(c[0] == "set_h" and c[1] != "h4" for c in h["hist"][i4 + 1:]))
+        forced = [h for h in ohist if must(h)][:24]
+        rest = [h for h in ohist if not must(h)]
+        ohist = forced + rnd.sample(rest, cap - len(forced))
     for h in ohist:                        # how the object was built is part of the model's state (GheObject.tla: variant)
         h["rb_mismatch"] = h["variant"] == "radius"
         h["multi_gf"] = h["variant"] == "family"
     for h, r in zip(ohist, parallel_map(_exec_object_history, ohist)):
         chk.nontrivial.add(("obj", tuple(map(tuple, h["hist"]))))
         if r.get("bad"):
-            chk.violation(f"C13 object history {h['hist']}{' (stored g-function of another borehole radius)' if h.get('rb_mismatch') else ' (two-height g-function family at the start)' if h.get('multi_gf') else ''}: {r['bad'][0]}", {"history": h["hist"], "bad": r["bad"]})
+            chk.violation(f"C13 object history {h['hist']}{' (stored g-function of another borehole radius)' if h.get('rb_mismatch') else ' (multi-height g-function family at the start)' if h.get('multi_gf') else ''}: {r['bad'][0]}", {"history": h["hist"], "bad": r["bad"]})
     chk.traces += len(ohist)
     chk.note("object_histories", len(ohist))
     for b in parallel_map(_shared_inputs_case, [0], procs=1)[0]:
@@ -319,7 +336,9 @@ def _mk_ghe(loads=None, months=12, gf_rb=None, gf_heights=None):
 
 
 # two heights below the 49-hour clamp of the short-time-step model (H < ~86 m for this soil) and one above
-HEIGHTS = {"h1": 80.0, "h2": 121.5, "h3": 62.0}
+# h4 lies OUTSIDE every tabulated height range (compute_g_functions tabulates 60 / 97.5 / 135 m, the two-height family 55 / 140 m):
+# a lookup there extrapolates; what it leaves in the g-function object must not change later in-range lookups
+HEIGHTS = {"h1": 80.0, "h2": 121.5, "h3": 62.0, "h4": 150.0}
 
 
 def _fresh_sts(ghe):
@@ -338,7 +357,7 @@ def _exec_object_history(item):
         warnings.simplefilter("ignore")
         try:
             rb = 0.0762 if item.get("rb_mismatch") else None
-            gh = (55.0, 140.0) if item.get("multi_gf") else None
+            gh = (55.0, 101.0, 140.0) if item.get("multi_gf") else None     # three heights: quadratic interpolation over heights
             g = _mk_ghe(gf_rb=rb, gf_heights=gh)
             out = None
             for call in item["hist"]:
